@@ -24,10 +24,11 @@ type Profile struct {
 	MinSteps     int
 	MaxSteps     int
 	SubsetBuilds bool // builds may name a single label instead of //...
+	Faults       bool // "fault-wipe-cas" steps
 	Workers      []int
 }
 
-var AllEdits = []string{"edit-content", "edit-content", "shift-boundary", "swap-contents", "add-file", "remove-file", "rename-file", "bump-nonce",
+var AllEdits = []string{"edit-content", "edit-content", "shift-boundary", "swap-contents", "add-file", "remove-file", "rename-file", "toggle-file", "toggle-file", "bump-nonce",
 	"edit-fingerprint", "rename-output", "add-edge", "add-edge-alias", "remove-edge", "reroute-alias", "retarget-alias"}
 var AllPerturbs = []string{"perturb-delete", "perturb-delete-parent", "perturb-truncate", "perturb-overwrite", "perturb-chmod", "perturb-stale-entry", "perturb-file-for-dir"}
 
@@ -114,7 +115,7 @@ func GenWS(t *rapid.T, p Profile) WS {
 			}
 		}
 		if p.Timeouts && rapid.IntRange(0, 3).Draw(t, "timeout") == 0 {
-			tg.Timeout = "2s"
+			tg.Timeout = "8s" // far above the ~50 ms a command takes even on a loaded machine; the slow switch sleeps 40 s
 		}
 		if rapid.IntRange(0, 5).Draw(t, "fp") == 0 {
 			tg.Fingerprint = map[string]string{"v": "1"}
@@ -135,6 +136,9 @@ func GenHistory(t *rapid.T, p Profile) History {
 	kinds = append(kinds, p.ExtSteps...)
 	if p.Taint {
 		kinds = append(kinds, "taint", "taint")
+	}
+	if p.Faults {
+		kinds = append(kinds, "fault-wipe-cas")
 	}
 	for i := 0; i < n; i++ {
 		k := rapid.SampledFrom(kinds).Draw(t, "kind")
